@@ -10,6 +10,7 @@ THEOREMS = ["GmqttVerif.Auth." + t for t in
              "restart_after_history", "update_takes_effect", "delete_takes_effect", "f39_witness", "preauth_inert",
              "rejected_inert", "run_inert"]]
 COMPS = ["authbroker"]
+RACE_COMPS = ["authbroker"]
 
 ALGS = ["plain", "md5", "sha256", "bcrypt"]
 SPECIAL = set(b",:[]=|()")
@@ -577,10 +578,80 @@ import os
 # the model mirrors the patched code; VERIF_C19_ASIS=1 selects the unpatched behaviour (F39, enhanced-auth deadlock, bcrypt truncation)
 ORACLE_ARGS = ["asis"] if os.environ.get("VERIF_C19_ASIS") else []
 
+# ---------------------------------------------------------------- CONNECTs of several connections at the same moment
+
+def gen_par(rng):
+    """accounts, then rounds of 4–8 CONNECTs written at the same moment on fresh connections (right password, wrong password, empty
+    password, another account's password, unknown user), account changes between rounds"""
+    alg = rng.choice(["md5", "md5", "sha256", "sha256", "plain", "bcrypt"])
+    ops = [f"new mode=onlyonce auth={alg} pf=abs cwd=other enh=0"]
+    acc = {}
+    for u in rng.sample(["alice", "bob", "carol", "al"], rng.randint(1, 3)):
+        acc[u] = rng.choice(["secret", "Secret", "pw", "p" * 40, "x"])
+        ops.append(f"api acct set {u} {acc[u]}")
+    n = 0
+    for r in range(rng.randint(5, 10) if alg != "bcrypt" else 2):
+        specs = []
+        for i in range(rng.randint(4, 8)):
+            n += 1
+            u = rng.choice(list(acc) + list(acc) + ["nobody"])
+            right = acc.get(u)
+            k = rng.random()
+            if right is not None and k < 0.5:
+                pw = right
+            elif k < 0.65:
+                pw = ""
+            elif k < 0.8:
+                pw = rng.choice(list(acc.values()))
+            else:
+                pw = (right or "q") + "x"
+            specs.append(f"p{n:03d},pc{n},{rng.choice([3, 4, 5, 5])},{u},{tok(pw)}")
+        ops.append("parconn " + " ".join(specs))
+        if rng.random() < 0.3:
+            u = rng.choice(list(acc))
+            acc[u] = rng.choice(["secret", "other", "pw2"])
+            ops.append(f"api acct set {u} {acc[u]}")
+        if rng.random() < 0.3:
+            ops.append("api state")
+    ops.append("api state")
+    return ops
+
+def pred_par(ops, out):
+    """every CONNECT of a parallel round is judged on its own credentials against the accounts as they are at that moment"""
+    if out and out[0].startswith("CRASH"):
+        if "DATA RACE" in out[0] or "data race" in out[0]:
+            return ("the Go race detector reported a data race while CONNECTs of several connections were authenticated at the same moment "
+                    "(the verdict on a CONNECT must depend on its own credentials only): " + out[0][:1200].replace("\n", " | "))
+        return None
+    acc = {}
+    for op, line in zip(ops, out):
+        f = op.split()
+        if f[:3] == ["api", "acct", "set"] and line.startswith("ok"):
+            acc[f[3]] = untok(f[4])
+        elif f[0] == "parconn":
+            _, conns = wire.parse_line(line)
+            for sp in f[1:]:
+                name, cid, v, u, pw = sp.split(",")
+                h = conns.get(name, ([], []))[0]
+                ca = next((x for x in h if x.startswith("connack(")), None)
+                got = ca is not None and ",code=0" in ca.replace("code=0)", "code=0,")
+                want = u in acc and acc[u] == untok(pw)
+                if got != want:
+                    return (f"`parconn`: the CONNECT on {name} (user {u}, password {pw}) was {'accepted' if got else 'refused'} ({ca}) although the "
+                            f"password {'matches' if want else 'does not match'} the account; the other CONNECTs of the round: {' '.join(x for x in f[1:] if x != sp)}")
+        elif f[:2] == ["api", "state"]:
+            pass
+    return None
+
 def streams(tier):
     n = 600 if tier == "quick" else 8000
-    return [(core.Stream("auth-broker", "authbroker", gen, predicate, nontrivial, canon=canon, keep_prefix=1, hint=hint,
-                         oracle_args=ORACLE_ARGS), n)]
+    res = [(core.Stream("auth-broker", "authbroker", gen, predicate, nontrivial, canon=canon, keep_prefix=1, hint=hint,
+                        oracle_args=ORACLE_ARGS), n)]
+    par = core.Stream("auth-parallel", "authbroker_race", gen_par, pred_par, lambda ops, out: any("code=0" in l for l in out) and any("code=135" in l or "code=5" in l or "code=4" in l for l in out),
+                      keep_prefix=1, oracle_args=ORACLE_ARGS, timeout=600)
+    par.oracle_comp, par.gomaxprocs = "authbroker", 4
+    res.append((par, 60 if tier == "quick" else 1500))
+    return res
 
 def _new_kv(info):
     return kvs(info["ops"][0].split()[1:]) if info.get("ops") else {}
